@@ -84,7 +84,8 @@ func leafTypeName(t types.Type) string {
 	u := t.Underlying()
 	switch u := u.(type) {
 	case *types.Basic:
-		return u.Name()
+		// byte and rune are aliases with their own *types.Basic objects: use the canonical name
+		return types.Typ[u.Kind()].Name()
 	case *types.Pointer:
 		return "*" + typeName(u.Elem())
 	}
